@@ -11,8 +11,8 @@ Definitions (Aave v3 / the property statement):
   supply value_k   = scaled_k * liquidity_index_k * price_k        debt value_k = scaled_k * variable_borrow_index_k * price_k
   collateral value = supply value of the positions flagged as collateral
   health factor    = sum(collateral value_k * LT_k) / sum(debt value)         (inf without debt)
-  max LTV          = sum(collateral value_k * LTV_k) / sum(collateral value)  (inf without collateral)
-  liq. threshold   = sum(collateral value_k * LT_k) / sum(collateral value)   (inf without collateral)
+  max LTV          = sum(collateral value_k * LTV_k) / sum(collateral value)  (0 without collateral, as Aave v3 defines)
+  liq. threshold   = sum(collateral value_k * LT_k) / sum(collateral value)   (0 without collateral, as Aave v3 defines)
   LTV              = sum(debt value) / sum(supply value)                       (inf without supply)
   APY_k            = (1 + rate_k / 31536000) ** 31536000 - 1
   supply/borrow APY= value-weighted mean of APY_k (0 when there is nothing)
@@ -170,8 +170,9 @@ class Expected:
         lt_sum = _sum(v * A(risk[k]["lt"]) for k, v in self.collateral_value.items())
         ltv_sum = _sum(v * A(risk[k]["ltv"]) for k, v in self.collateral_value.items())
         self.health_factor = _ratio(lt_sum, self.total_borrows_value, INF)
-        self.max_ltv = _ratio(ltv_sum, self.total_collateral_value, INF)
-        self.liquidation_threshold = _ratio(lt_sum, self.total_collateral_value, INF)
+        # Aave v3 (calculateUserAccountData) defines both weighted figures as 0 for an account without collateral
+        self.max_ltv = _ratio(ltv_sum, self.total_collateral_value, A(0))
+        self.liquidation_threshold = _ratio(lt_sum, self.total_collateral_value, A(0))
         self.ltv = _ratio(self.total_borrows_value, self.total_supply_value, INF)
         if not self.supplies_value:
             self.supply_apy = A(0)
